@@ -409,11 +409,18 @@ func runPlan(w *world, path string) {
 			case "Handle":
 				w.handle(s.M)
 			case "FromHandle":
+				if s.H < 1 || s.H > len(w.handles) {
+					// the real objects have already diverged from the plan (an earlier event of this scenario
+					// carries the mismatch and is judged by TLC); the rest of the scenario cannot be executed
+					w.w.Emit(vt.Ev{"ev": "diverged", "m": s.M, "why": "plan refers to a handle the real manager never returned"})
+					goto nextScenario
+				}
 				w.fromHandle(s.M, s.H)
 			default:
 				vt.Fatal("plan: unknown op %q", s.Op)
 			}
 		}
+	nextScenario:
 	}
 }
 
